@@ -14,12 +14,14 @@ use serde_json::{json, Value};
 use std::collections::BTreeMap;
 use std::process::{Command, Stdio};
 
-/// the wrapping rule of the macro, as documented: a literal without a module header is put into a dummy AUTOMATIC TAGS module
+/// the wrapping rule of the macro, as documented: a literal without a module header is put into a dummy AUTOMATIC TAGS
+/// module. The reference wraps *correctly* - header, the literal on lines of its own, END - so that a literal which does not
+/// end in a line break (`"Foo ::= Bar"`) or ends in a `--` comment is still followed by the END keyword.
 fn wrapped(lit: &str) -> String {
     if lit.contains("BEGIN") {
         lit.to_string()
     } else {
-        format!("asn1 {{ dummy(999) header(999) }}\n\nDEFINITIONS AUTOMATIC TAGS::= BEGIN\n{lit}END")
+        format!("asn1 {{ dummy(999) header(999) }}\n\nDEFINITIONS AUTOMATIC TAGS::= BEGIN\n{lit}\nEND")
     }
 }
 
@@ -209,6 +211,9 @@ fn literal(seed: u64, k: u64) -> (String, &'static str) {
             }
             (full[..cut].to_string(), "truncated")
         }
+        // header-less literals that do not end in a line break: the last token, or a trailing line comment, must not run into
+        // whatever the macro appends
+        5 if k % 12 == 5 => (if rng.chance(1, 2) { "Foo ::= BOOLEAN  Bar ::= Foo".to_string() } else { "Foo ::= INTEGER (0..7) -- the last line is a comment".to_string() }, "no-final-line-break"),
         // characters that need escaping in a Rust string literal, inside comments and a string value
         _ => (format!("Tx ::= SEQUENCE {{ a INTEGER, -- \"quoted\" \\ back\\slash 中\n b UTF8String }}\nvx UTF8String ::= \"say \"\"hi\"\" \\ ü\"\n"), "escapes"),
     }
